@@ -1007,7 +1007,15 @@ impl<'a> Engine<'a> {
                         if let Some(o) = res.get(&(other, cx.case.hk)) {
                             let exp = model::run(cx.case.prog, k, cx.case.hk, &p);
                             let same = match (&me.0, &o.0) {
-                                (Outcome::Done(a), Outcome::Done(b)) => a == b || (k.is_async() && exp.outs.len() > 1 && exp.outs.contains(a) && exp.outs.contains(b)),
+                                // these runs are ungated and driven by the deterministic executors (harness executor, tokio
+                                // current_thread): also when several branches fail in one step both macros have to report the
+                                // same one — "the same result for the same branches"
+                                (Outcome::Done(a), Outcome::Done(b)) => {
+                                    if a != b && k.is_async() && exp.outs.len() > 1 && exp.outs.contains(a) && exp.outs.contains(b) {
+                                        stats.bump("async_pairs_reporting_different_failing_branches", 1);
+                                    }
+                                    a == b
+                                }
                                 (Outcome::Panicked(_), Outcome::Panicked(_)) => true,
                                 _ => false,
                             };
